@@ -105,10 +105,36 @@ BoxScan(P, lo, hi) == SelectSeq(P, LAMBDA p : InClosed(lo, hi, p))
 Corners == {Decode(c) : c \in BoxCodes}
 Boxes == {b \in Corners \X Corners : Leq(b[1], b[2])}
 
-\* Is a bounding volume recorded?  New(p, bb) records one iff bb and p is not
-\* empty; Insert(c, ib) into an empty tree decides by ib, afterwards the tree
-\* keeps its mode (kdtree.Insert documentation).
+\* Does the k-d tree record bounding volumes?  The answer depends on what the USER TYPES can do
+\* (kdtree documentation): New(p, bb) determines bounds for each node iff bb and the collection p is
+\* a Bounder (cb); Insert(c, ib) "adds a point to the tree, updating the bounding volumes if bounding
+\* is true, and the tree is empty or the tree already has bounding volumes stored, and c is an
+\* Extender" (ee).  Modes of a tree:
+\*   "empty"  no node                       "off"    no bounding volumes
+\*   "on"     BOUNDED: every node stores a volume, and every stored volume contains every point of
+\*            the node's subtree (the property's clause on bounding boxes; Contains is judged by it)
+\*   "stale"  a bounded tree into which a Comparable that is not an Extender was inserted: the
+\*            documentation says the volumes are not updated and nothing else.  Either the tree no
+\*            longer presents itself as bounded (no volume at the root; volumes further down are
+\*            then unconstrained leftovers), or it does and then every stored volume must still
+\*            contain every point of its subtree.  Queries are answered from the bag in every mode.
+BuildMode(cb, nb, bb) == IF nb = 0 THEN "empty" ELSE IF bb /\ cb THEN "on" ELSE "off"
+InsertMode(m, ee, ib) == CASE m = "empty" -> IF ib /\ ee THEN "on" ELSE "off"
+                           [] m = "on"    -> IF ee THEN "on" ELSE "stale"
+                           [] OTHER       -> m
+RECURSIVE InsertModes(_, _, _, _)
+InsertModes(m, ee, ib, ni) == IF ni = 0 THEN m ELSE InsertModes(InsertMode(m, ee, ib), ee, ib, ni - 1)
+\* a history of one collection / element type whose insertions all pass the same flag
+Mode(cb, ee, nb, ni, bb, ib) == InsertModes(BuildMode(cb, nb, bb), ee, ib, ni)
+\* (kdtree.Points / kdtree.Point: a Bounder of Extenders)
 Bounded(nb, ni, bb, ib) == IF nb > 0 THEN bb ELSE IF ni > 0 THEN ib ELSE FALSE
+\* what a dump of the stored volumes must satisfy: nodes[1] is the root, every node lists the points
+\* of its subtree (sub) and, if it stores a volume (hasbox), the volume's corners lo, hi
+VolumeOK(nd) == nd.hasbox => \A j \in 1 .. Len(nd.sub) : Leq(nd.lo, nd.sub[j]) /\ Leq(nd.sub[j], nd.hi)
+VolumesOK(m, nodes) ==
+    CASE m = "on"    -> \A i \in 1 .. Len(nodes) : nodes[i].hasbox /\ VolumeOK(nodes[i])
+      [] m = "stale" -> (Len(nodes) > 0 /\ nodes[1].hasbox) => \A i \in 1 .. Len(nodes) : VolumeOK(nodes[i])
+      [] OTHER       -> \A i \in 1 .. Len(nodes) : ~nodes[i].hasbox
 
 (******************************* histories ***********************************)
 Points == [1 .. Dim -> Coords]
@@ -161,6 +187,37 @@ BoxScanOK ==
         Len(BoxScan(All, b[1], b[2])) <= Len(BoxScan(All, c[1], c[2]))
   /\ Len(All) > 0 => BoxScan(All, BoxMin(All), BoxMax(All)) = All
 
+\* the modes refine what the documentation says about kdtree.Points (a Bounder of Extenders); a tree goes
+\* stale only through a plain Comparable inserted into a tree built with volumes; a collection that is
+\* not a Bounder and elements that are not Extenders never produce a volume
+ModeOK == LET nb == Len(built) ni == Len(ins) IN \A bb, ib \in BOOLEAN :
+            /\ Mode(TRUE, TRUE, nb, ni, bb, ib) = (IF nb + ni = 0 THEN "empty" ELSE IF Bounded(nb, ni, bb, ib) THEN "on" ELSE "off")
+            /\ \A cb, ee \in BOOLEAN : LET m == Mode(cb, ee, nb, ni, bb, ib) IN
+                  /\ m \in {"empty", "on", "off", "stale"} /\ (m = "empty" <=> nb + ni = 0)
+                  /\ m = "stale" <=> (cb /\ bb /\ ~ee /\ nb > 0 /\ ni > 0)
+                  /\ m = "on" => (ee \/ ni = 0) /\ (cb \/ nb = 0)
+                  /\ (~cb /\ ~ee) => m \in {"empty", "off"}
+
+\* VolumesOK accepts the dump of a (degenerate, right-leaning) tree over the bag whose nodes store the minimal
+\* boxes of their subtrees, in the modes that allow volumes; rejects it once one volume loses a point of its
+\* subtree; a stale tree may drop the root volume and keep anything below
+ChainDump(P, box, wrong) ==
+    [i \in 1 .. Len(P) |-> LET sub == SubSeq(P, i, Len(P)) IN
+        [hasbox |-> box, sub |-> sub,
+         lo |-> BoxMin(IF i = wrong /\ Len(sub) > 1 THEN Tail(sub) ELSE sub),
+         hi |-> BoxMax(IF i = wrong /\ Len(sub) > 1 THEN Tail(sub) ELSE sub)]]
+VolumeLemma ==
+    Len(All) > 0 =>
+      LET good == ChainDump(All, TRUE, 0) none == ChainDump(All, FALSE, 0) IN
+      /\ VolumesOK("on", good) /\ VolumesOK("stale", good) /\ ~VolumesOK("off", good)
+      /\ VolumesOK("off", none) /\ VolumesOK("stale", none) /\ ~VolumesOK("on", none)
+      /\ \A w \in 1 .. Len(All) - 1 :
+            LET bad == ChainDump(All, TRUE, w)
+                loses == ~InClosed(bad[w].lo, bad[w].hi, All[w])          \* the first point of the subtree fell out
+            IN  /\ loses => (~VolumesOK("on", bad) /\ ~VolumesOK("stale", bad))
+                /\ ~loses => VolumesOK("on", bad)
+                /\ VolumesOK("stale", [bad EXCEPT ![1].hasbox = FALSE])
+
 (**************************** generator role (R2) *****************************)
 Act(p) == [i \in 1 .. Len(p) |-> p[i] - Off]
 ActSeq(P) == [i \in 1 .. Len(P) |-> Act(P[i])]
@@ -179,7 +236,8 @@ QueryRec(q) ==
 EmitState ==
   Emit => PrintT(ToJson(
     [k |-> "h", dim |-> Dim, built |-> ActSeq(built), ins |-> ActSeq(ins), n |-> Len(All),
-     bounded |-> {[bb |-> bb, ib |-> ib, v |-> Bounded(Len(built), Len(ins), bb, ib)] : bb \in BOOLEAN, ib \in BOOLEAN},
+     bounded |-> {[cb |-> cb, ee |-> ee, bb |-> bb, ib |-> ib, v |-> Mode(cb, ee, Len(built), Len(ins), bb, ib)] :
+                     cb \in BOOLEAN, ee \in BOOLEAN, bb \in BOOLEAN, ib \in BOOLEAN},
      box |-> IF Len(All) = 0 THEN <<>> ELSE <<Act(BoxMin(All)), Act(BoxMax(All))>>,
      ks |-> Ks, rs |-> Rs, rsq |-> [i \in DOMAIN Rs |-> IsSquare(Rs[i])],
      boxes |-> {[lo |-> Act(b[1]), hi |-> Act(b[2]), pts |-> ActSeq(BoxScan(All, b[1], b[2]))] : b \in Boxes},
